@@ -117,8 +117,8 @@ class SpecGen:
         elif kind == "param":
             deep = depth < self.max_depth and len(sp.lits) < self.size
             ty = rng.choice(PARAMS if deep else ["Parameter"])
-            if ty == "Parameter" and rng.random() < 0.1:
-                ty = "torchtree.core.parameter.Parameter"
+            if ty == "Parameter" and rng.random() < 0.2:
+                ty = rng.choice(["torchtree.core.parameter.Parameter", "torchtree.Parameter"])
         else:
             deep = depth < self.max_depth
             ty = rng.choice(DISTS if deep else ["Distribution"])
@@ -227,10 +227,12 @@ class SpecGen:
             for nm in names:
                 bare = ty == "UnRootedTreeModel" and rng.random() < 0.6   # what UnRootedTreeModel.json_factory emits
                 any_bare = any_bare or bare
-                t = self._shuffled([("id", nm), ("type", "Taxon")] + ([] if bare else [("attributes", {"date": 0.0})]))
+                t = self._shuffled([("id", nm), ("type", rng.choice(["Taxon", "Taxon", "torchtree.evolution.taxa.Taxon"]))]
+                                   + ([] if bare else [("attributes", {"date": 0.0})]))
                 self._register(sp, t, "taxon", depth + 2, taxa)
                 taxon_list.append(t)
-            taxa.update(self._shuffled([("id", self.fresh(sp, "taxa")), ("type", "Taxa"), ("taxa", taxon_list)]))
+            taxa.update(self._shuffled([("id", self.fresh(sp, "taxa")),
+                                        ("type", rng.choice(["Taxa", "torchtree.evolution.taxa.Taxa"])), ("taxa", taxon_list)]))
             self._register(sp, taxa, "taxa_bare" if any_bare else "taxa", depth + 1, d)
             sp.taxa_names[taxa["id"]] = names
             holder["taxa"] = taxa
@@ -467,7 +469,7 @@ def set_id(sp, d, new):
     """give the literal `d` another id; a Taxon's name also occurs in the newick strings of the trees using it"""
     old = d.get("id")
     d["id"] = new
-    if d.get("type") == "Taxon" and isinstance(old, str):
+    if str(d.get("type", "")).endswith("Taxon") and isinstance(old, str):
         for t in sp.lits:
             if isinstance(t.get("newick"), str):
                 t["newick"] = t["newick"].replace(old + ":", new + ":")
